@@ -26,6 +26,39 @@ pub fn minmax(cfg: &mut Cfg, rep: &mut Report) {
     let fa = [f64::NAN, -0.0, 0.0, f64::NEG_INFINITY, f64::INFINITY, 1.5];
     let ia = [-3i32, 0, 0, 7];
     let mut rng = Lcg(cfg.seed + 11);
+    // larger arrays (8..=48 elements; 1-D and 2-D): NaN at a random position (or none), ties, signed zeros
+    for k in 0..(if cfg.thorough { 4000 } else { 600 }) {
+        let n = 8 + rng.below(41);
+        let shape: Vec<usize> = if k % 3 == 0 && n % 2 == 0 { vec![2, n / 2] } else if k % 3 == 1 && n % 3 == 0 { vec![n / 3, 3] } else { vec![n] };
+        let mut v: Vec<f64> = (0..n).map(|_| [-1.5, -0.0, 0.0, 2.0, 2.0, 7.25, f64::INFINITY][rng.below(7)]).collect();
+        let nanpos = if k % 4 != 3 { Some(if k % 8 == 0 { 0 } else if k % 8 == 1 { n - 1 } else { rng.below(n) }) } else { None };
+        if let Some(p) = nanpos { v[p] = f64::NAN; }
+        let base = ArrayD::from_shape_vec(IxDyn(&shape), v.clone()).unwrap();
+        for lay in ["c", "f", "rev"] {
+            let case = format!("minmax;large;f64;shape={:?};data={:?};layout={}", shape, v, lay);
+            if !rep.want(cfg, &case) { continue; }
+            let rl = Relayout::new(&base, lay, 99.0);
+            let vw = rl.view();
+            match guarded(|| (vw.argmin(), vw.min().map(|x| *x), vw.argmax(), vw.max().map(|x| *x))) {
+                Err(m) => rep.fail(cfg, &case, "min/max family panicked", json!({"panic": m})),
+                Ok((amin, mn, amax, mx)) => {
+                    if nanpos.is_some() {
+                        if amin != Err(MinMaxError::UndefinedOrder) || mn != Err(MinMaxError::UndefinedOrder) || amax != Err(MinMaxError::UndefinedOrder) || mx != Err(MinMaxError::UndefinedOrder) {
+                            rep.fail(cfg, &case, "NaN present but UndefinedOrder was not returned by all four routines", json!({"nan_at": nanpos}));
+                        }
+                    } else {
+                        match (amin, mn, amax, mx) {
+                            (Ok(i), Ok(a), Ok(j), Ok(b)) => {
+                                if !(base.iter().all(|x| vw[&i] <= *x && a <= *x && vw[&j] >= *x && b >= *x) && a == vw[&i] && b == vw[&j]) { rep.fail(cfg, &case, "min/max/argmin/argmax do not designate extrema", json!({})); }
+                            }
+                            _ => rep.fail(cfg, &case, "error although the array is non-empty and NaN-free", json!({})),
+                        }
+                    }
+                }
+            }
+            rep.eval(&case, true);
+        }
+    }
     for shape in shapes_for(cfg.thorough) {
         let size: usize = shape.iter().product();
         let ncodes_f = if size <= 4 { fa.len().pow(size as u32) } else { 600 };
